@@ -25,6 +25,10 @@ func init() {
 	builtinModels["(*"+pkgb+".Hash32).Equal"] = modelHashEqual
 	builtinModels["(*"+pkgw+".BlockHeader).BlockHash"] = modelBlockHash
 	inlineDeps["("+pkgw+".BlockHeader).WorkIsValid"] = true
+	for _, n := range []string{"NewMerkleTree", "NewMerkleProof"} {
+		inlineDeps["github.com/tokenized/pkg/merkle_proof."+n] = true
+	}
+	inlineDeps["(*github.com/tokenized/pkg/merkle_proof.MerkleTree).AddMerkleProof"] = true
 	builtinModels["("+pkgb+".Hash32).Value"] = modelHashValue
 	builtinMods["("+pkgb+".Hash32).Value"] = []string{bigComp}
 	builtinModels[pkgb+".ConvertToWork"] = modelConvertToWork
@@ -786,6 +790,29 @@ func (fc *FnCtx) execCopy(args []Val, at ssa.Value, rt types.Type) (*Val, error)
 // ---------------------------------------------------------------------------------------------
 // channels
 
+// chanFact records that a non-nil channel value is an object of its (bidirectional) channel type, so that channels
+// of different element types never alias. qvars are the SMT variables bound at the point of use: a term that
+// mentions one of them is skipped (the fact is only stated for ground terms).
+func (fc *FnCtx) chanFact(ch Val, qvars []string) {
+	ct, ok := ch.Typ.Underlying().(*types.Chan)
+	if !ok || ch.T == "0" {
+		return
+	}
+	for _, q := range qvars {
+		if strings.Contains(ch.T, q) {
+			return
+		}
+	}
+	fc.vc.declareFun("typeOf", []string{"Int"}, "Int")
+	tid := fc.typeID(types.NewChan(types.SendRecv, ct.Elem()))
+	key := "chanfact:" + ch.T
+	if fc.vc.declSet[key] {
+		return
+	}
+	fc.vc.declSet[key] = true
+	fc.vc.assertGlobal(mkImplies(mkNot(mkEq(ch.T, "0")), mkEq("(typeOf "+ch.T+")", tid)))
+}
+
 func (fc *FnCtx) chanInit(r, capT string) {
 	for _, c := range []struct{ n, s, v string }{{"CN.sent", "Int", "0"}, {"CN.recvd", "Int", "0"}, {"CN.closed", "Bool", "false"}, {"CN.cap", "Int", capT}} {
 		fc.setComp(c.n, arraySort(c.s), sto(fc.getComp(c.n, arraySort(c.s)), r, c.v))
@@ -794,6 +821,7 @@ func (fc *FnCtx) chanInit(r, capT string) {
 
 func (fc *FnCtx) chanSend(ch Val, v Val, guard string) {
 	ct := ch.Typ.Underlying().(*types.Chan)
+	fc.chanFact(ch, nil)
 	sent := fc.getComp("CN.sent", arraySort("Int"))
 	closed := fc.getComp("CN.closed", arraySort("Bool"))
 	save := fc.cur.reach
@@ -828,6 +856,7 @@ func (fc *FnCtx) execSend(x *ssa.Send) error {
 
 func (fc *FnCtx) execRecv(x *ssa.UnOp, ch Val) error {
 	ct := ch.Typ.Underlying().(*types.Chan)
+	fc.chanFact(ch, nil)
 	v := fc.symbolic(fc.name(x)+".rv", ct.Elem())
 	recvd := fc.getComp("CN.recvd", arraySort("Int"))
 	if x.CommaOk {
@@ -856,6 +885,7 @@ func (fc *FnCtx) execSelect(x *ssa.Select) error {
 		if err != nil {
 			return err
 		}
+		fc.chanFact(ch, nil)
 		if st.Dir == types.SendOnly {
 			v, err := fc.val(st.Send)
 			if err != nil {
